@@ -233,7 +233,12 @@ pub fn judge(c: &FileCase, ev: &mut Local) -> Result<(), Fail> {
                     let in_domain = c.fmt == Format::Pth || {
                         let t: Vec<u8> = c.bytes.get(16..48).unwrap_or(&[]).iter().cloned().take_while(|b| *b != 0).collect();
                         // (a caret that starts neither a marker, a colour nor an escaped caret is ambiguous text: C10 / C12)
-                        crate::refs::cp::ref_decode_strict(&t).is_some()
+                        // ... and the text must fit its 32 bytes again whatever markers the writer chooses (worst case: a marker
+                        // in front of every non-ASCII character), as in C01's text domain
+                        match crate::refs::cp::ref_decode_strict(&t) {
+                            Some(s) => s.chars().map(|c| if c.is_ascii() { 1 } else { 4 }).sum::<usize>() <= 32,
+                            None => false,
+                        }
                     };
                     if in_domain {
                         ensure!(dbg2 == dbg && rewritten2 == rewritten, format!("c17:{f}-write-parse-differs"), "{}: parse -> write -> parse gives a different structure: {} vs {}", c.label, dbg.chars().take(160).collect::<String>(), dbg2.chars().take(160).collect::<String>());
